@@ -201,23 +201,33 @@ impl<'a> Ctx<'a> {
     }
 }
 
-fn has_pair_sensitive(d: &Doc) -> BTreeSet<&'static str> {
-    // raw-text elements without child text for which `<a></a>` is read differently from `<a/>`
-    let mut out = BTreeSet::new();
-    let mut probe = d.clone();
-    // assign with expr and no text; content with expr and no text; content with neither
-    fn ct(c: &Option<ContentT>, out: &mut BTreeSet<&'static str>) {
+/// raw-text elements without child text for which `<a></a>` is read differently from `<a/>`:
+/// (those that make the reader panic: `<assign expr>`, `<content expr>`; those that only change the
+/// model: `<content>` without `expr`)
+fn has_pair_sensitive(d: &Doc) -> (BTreeSet<&'static str>, BTreeSet<&'static str>) {
+    struct Acc {
+        panic: BTreeSet<&'static str>,
+        diff: BTreeSet<&'static str>,
+    }
+    fn ct(c: &Option<ContentT>, out: &mut Acc) {
         if let Some(c) = c {
             if c.text.is_none() {
-                out.insert("content");
+                if c.expr.is_some() {
+                    out.panic.insert("content");
+                } else {
+                    out.diff.insert("content");
+                }
             }
         }
     }
-    fn block(b: &[Content], out: &mut BTreeSet<&'static str>) {
+    fn block(b: &[Content], out: &mut Acc) {
         for c in b {
             match c {
+                Content::Assign { text: None, expr: Some(e), .. } if !e.is_empty() => {
+                    out.panic.insert("assign");
+                }
                 Content::Assign { text: None, .. } => {
-                    out.insert("assign");
+                    out.diff.insert("assign");
                 }
                 Content::Send(s) => ct(&s.content, out),
                 Content::If { body, tail, .. } => {
@@ -242,7 +252,7 @@ fn has_pair_sensitive(d: &Doc) -> BTreeSet<&'static str> {
             }
         }
     }
-    fn state(s: &StateT, out: &mut BTreeSet<&'static str>) {
+    fn state(s: &StateT, out: &mut Acc) {
         for b in s.onentry.iter().chain(s.onexit.iter()) {
             block(b, out)
         }
@@ -265,9 +275,9 @@ fn has_pair_sensitive(d: &Doc) -> BTreeSet<&'static str> {
             state(k, out)
         }
     }
-    state(&probe.root, &mut out);
-    let _ = &mut probe;
-    out
+    let mut acc = Acc { panic: BTreeSet::new(), diff: BTreeSet::new() };
+    state(&d.root, &mut acc);
+    (acc.panic, acc.diff)
 }
 
 fn raw_kinds_with_text(d: &Doc) -> BTreeSet<String> {
@@ -417,7 +427,8 @@ fn check_doc(ctx: &mut Ctx, t: &Doc, origin: &Value, seed: u64) {
                 );
             }
             other => {
-                let sig = if style.prefix.is_some() && !raw_with_text.is_empty() {
+                let xml_invalid = matches!(other, Out::Panic(m) if m.contains("XML invalid"));
+                let sig = if style.prefix.is_some() && !raw_with_text.is_empty() && xml_invalid {
                     format!("C04:ns-prefix:raw-text-element:{}", raw_with_text.iter().cloned().collect::<Vec<_>>().join("+"))
                 } else {
                     format!("C04:metamorphic:{}:rejected", name)
@@ -437,12 +448,14 @@ fn check_doc(ctx: &mut Ctx, t: &Doc, origin: &Value, seed: u64) {
         let m = ctx.run_model(&r.sax);
         ctx.compare(&i, &m, origin, "pair-empty-raw", &r.xml);
         ctx.rep.count("variant_pair-empty-raw");
+        let join = |a: &BTreeSet<&'static str>, b: &BTreeSet<&'static str>| a.union(b).cloned().collect::<Vec<_>>().join("+");
+        let known = match &i {
+            Out::Panic(m) => !sens.0.is_empty() && (m.contains("shall not have content") || m.contains("but not both")),
+            Out::Ok(_) => sens.0.is_empty() && !sens.1.is_empty(),
+            Out::Err(_) => false,
+        };
         if i != i0 {
-            let sig = if sens.is_empty() {
-                "C04:metamorphic:pair-empty-raw".to_string()
-            } else {
-                format!("C04:empty-pair-form:{}", sens.iter().cloned().collect::<Vec<_>>().join("+"))
-            };
+            let sig = if known { format!("C04:empty-pair-form:{}", join(&sens.0, &sens.1)) } else { "C04:metamorphic:pair-empty-raw".to_string() };
             ctx.fail(&sig, json!({"origin": origin, "variant": "pair-empty-raw", "xml": r.xml, "impl": i.brief()}));
         }
     }
